@@ -453,7 +453,7 @@ func ruleSrv(c *Ctx) {
 						case "erc.(*Collector).Add":
 							// the job's own result goes to the collector
 							if len(t.Args) == 1 {
-								ast.Inspect(t.Args[0], func(y ast.Node) bool {
+								ast.Inspect(resolveLocal(f, t.Args[0]), func(y ast.Node) bool {
 									if c2, ok := y.(*ast.CallExpr); ok && callName(info, c2) == "fun.Worker.Run" {
 										collected = true
 									}
